@@ -57,6 +57,9 @@ fn gen02(t: &mut Tape, tier: Tier) -> Scenario {
         if c.ctrl >= 0x80 && c.payload_len > 60_000 {
             flags |= 8192;
         }
+        if c.ctrl >= 0x80 && c.payload_len == 5 {
+            flags |= 16384;
+        }
     }
     sc.set_i("flags", flags);
     sc.note = format!("chunks: {}; out={} bytes; cross-chunk copies={}", b.note, b.expect.len(), b.ps.cross_chunk_copies);
@@ -131,7 +134,7 @@ fn run_exact(sc: &Scenario, ctx: &mut Ctx, class_reject: &str) -> Vec<Violation>
 
 fn exec02(sc: &Scenario, ctx: &mut Ctx) -> Vec<Violation> {
     let f = sc.i("flags");
-    let names: [&'static str; 14] = [
+    let names: [&'static str; 15] = [
         "probe.uncompressed_chunk_with_dictionary_reset",
         "probe.uncompressed_chunk_without_reset",
         "probe.lzma_chunk_no_reset",
@@ -146,6 +149,7 @@ fn exec02(sc: &Scenario, ctx: &mut Ctx) -> Vec<Violation> {
         "probe.lzma_chunk_above_64KiB_unpacked",
         "probe.lzma_chunk_above_1MB_unpacked",
         "probe.lzma_chunk_above_60000_packed",
+        "probe.lzma_chunk_with_5_byte_payload",
     ];
     for (i, n) in names.iter().enumerate() {
         if f & (1 << i) != 0 {
